@@ -224,7 +224,9 @@ Inductive SLay : bytes -> list stok -> Prop :=
 | sl_ann_line text a r t : no_nl_b text -> parse_ann text = Some a -> line_end r -> SLay r t -> SLay (47 :: 47 :: text ++ r) (KAnn a :: t)
 | sl_note_block text r t : (forall u v, text <> u ++ 42 :: 47 :: v) -> (forall u, text <> u ++ [42]) ->
     (exists c x, trim_left text = c :: x /\ c <> 123) -> SLay r t ->
-    SLay (47 :: 42 :: text ++ 42 :: 47 :: r) (KAnn (mk_ann [] (trim text)) :: t).
+    SLay (47 :: 42 :: text ++ 42 :: 47 :: r) (KAnn (mk_ann [] (trim text)) :: t)
+(* a block annotation in general (Proofs/AnnotationProofs.v says which texts are read as which annotation) *)
+| sl_block x a r t : block_ann x = Some (a, r) -> (length r <= length x)%nat -> SLay r t -> SLay (47 :: 42 :: x) (KAnn a :: t).
 
 Lemma take_line_end c r : no_nl_b c -> line_end r -> take_line (c ++ r) = (c, r).
 Proof.
@@ -333,7 +335,7 @@ Qed.
 (* every layout of a token sequence is read back as that token sequence *)
 Theorem slex_layout s ts : SLay s ts -> forall f, (length s < f)%nat -> slex f s = Ok ts.
 Proof.
-  induction 1 as [|c r t Hc _ IH|c k r t Hk _ IH|lit r t Hl Hr _ IH|ns s r t Hs Hstop Hbar _ IH|c r t Hc Hnb Hr _ IH|text a r t Ht Hp Hr _ IH|text r t Hno Hedge Hnote _ IH];
+  induction 1 as [|c r t Hc _ IH|c k r t Hk _ IH|lit r t Hl Hr _ IH|ns s r t Hs Hstop Hbar _ IH|c r t Hc Hnb Hr _ IH|text a r t Ht Hp Hr _ IH|text r t Hno Hedge Hnote _ IH|x a r t Hb Hlen _ IH];
     intros f Hf.
   - destruct f; [lia|reflexivity].
   - destruct f; [lia|]. cbn [slex]. rewrite Hc. apply IH. cbn [length] in Hf. lia.
@@ -346,6 +348,8 @@ Proof.
   - destruct f; [lia|]. rewrite (slex_ann_line text a r f Ht Hp Hr). rewrite IH; [reflexivity|]. cbn [length] in Hf. rewrite app_length in Hf. lia.
   - destruct f; [lia|]. rewrite (slex_note_block text r f Hno Hedge Hnote). rewrite IH; [reflexivity|].
     cbn [length] in Hf. rewrite app_length in Hf. cbn [length] in Hf. lia.
+  - destruct f; [lia|]. cbn [slex]. change (is_blank 47) with false. cbn [N.eqb Pos.eqb]. rewrite Hb.
+    rewrite IH; [reflexivity|]. cbn [length] in Hf. lia.
 Qed.
 
 (* layout independence of the model, in one statement: whatever the layout of a writing of a tree, the tree is that tree *)
